@@ -37,7 +37,7 @@ using blas::filling;
 
 template<class Array2D, class TAU, class Allocator>
 auto geqrf(Array2D&& aa, TAU& tau, Allocator alloc) -> Array2D&& {
-//  assert( stride(~a) == 1);
+	assert( (~aa).stride() == 1 );  // LAPACK sees the transpose of a row-major view: its rows must be contiguous
 	assert( size(tau) == std::min(size(~aa), size(aa)) );
 
 	double dwork;  // NOLINT(cppcoreguidelines-init-variables) delayed initialization
